@@ -209,6 +209,21 @@ def scenarios(sh, rng, mk, hid):
             expect(sh, f'ref-tableless-column|same-name-both-sides|ref.dbml|{tag}', TNF, lambda: rs.dbml, case, hid)
             if not inline or kind == '<>':
                 expect(sh, f'ref-tableless-column|same-name-both-sides|db.sql|{tag}', TNF, lambda: db.sql, case, hid)
+    # ---- a reference endpoint that is detached AND has no type: still the table-less error ----
+    for kind in ('>', '<>'):
+        db, case = fresh()
+        t1, t2 = rng.sample(db.tables, 2)
+        cs = Column(f'typeless{rng.randrange(10**6)}', 'int')
+        t1.add_column(cs)
+        rs = db.add(Reference(kind, cs, t2.columns[0], name='rtypeless'))
+        t1.delete_column(cs)
+        cs.type = None
+        expect(sh, f'ref-tableless-column|typeless|ref.sql|{kind}', TNF, lambda: rs.sql, case, hid)
+        expect(sh, f'ref-tableless-column|typeless|ref.dbml|{kind}', TNF, lambda: rs.dbml, case, hid)
+        never = Column(f'never{rng.randrange(10**6)}', None)
+        rn = Reference(kind, never, t2.columns[0])
+        expect(sh, f'ref-tableless-column|typeless-never-attached|ref.sql|{kind}', TNF, lambda: rn.sql, case, hid)
+        expect(sh, f'ref-tableless-column|typeless-never-attached|ref.dbml|{kind}', TNF, lambda: rn.dbml, case, hid)
     # ---- index not attached ---------------------------------------------------------------
     db, case = fresh()
     t = rng.choice(db.tables)
